@@ -386,6 +386,13 @@ void witness_case(Ctx& c, uint64_t idx) {
 }  // namespace
 
 int main(int argc, char** argv) {
+  // private flag (removed before the common runtime parses argv): --sections a,b,c runs only
+  // the named sections (prefix match); used by the valgrind pass
+  std::string only_sections;
+  for (int i = 1; i + 1 < argc; ++i) if (std::string(argv[i]) == "--sections") {
+    only_sections = std::string(",") + argv[i + 1] + ",";
+    for (int j = i; j + 2 < argc; ++j) argv[j] = argv[j + 2];
+    argc -= 2; break; }
   build_faults(); build_catalogue(); load_corpus_list();
   for (auto& t : c13::targets()) if (t.is_string) g_strt.push_back(&t);
   std::vector<Section> S;
@@ -407,5 +414,13 @@ int main(int argc, char** argv) {
       for (const c13::Target* t : g_strt) run_target(c, *t, s, "grammar", "grammar"); }, 60});
   S.push_back({"corpus_replay", g_corpus.size(), g_corpus.size(), false, corpus_case, 120});
   S.push_back({"fuzz_witness", 0, 0, false, witness_case, 120});
+  if (!only_sections.empty())
+    for (auto& sec : S) {
+      bool keep = false; size_t p = 0;
+      while ((p = only_sections.find(',', p)) != std::string::npos && p + 1 < only_sections.size()) {
+        size_t q = only_sections.find(',', p + 1); std::string pat = only_sections.substr(p + 1, q - p - 1);
+        if (!pat.empty() && sec.name.compare(0, pat.size(), pat) == 0) keep = true; p = q; }
+      if (!keep) sec.nquick = sec.nthorough = 0;
+    }
   return vh::run_sections(argc, argv, S);
 }
